@@ -254,6 +254,31 @@ def run_attack(cfg, out):
             for k in late:
                 pending_echo.pop(k)
                 echo_late[0] += 1
+        # ---- more junk in ONE tick than any plausible queue bound, tick after tick, each batch arriving right behind the honest
+        #      client's datagrams of that tick (well-formed headers from unknown addresses: they get as far as the loop's queue)
+        if w.alive() and (cfg["shard"] % 4 == 3 or cfg.get("tier") != "quick"):
+            junk = [A.header("c2s", int(w.clock.now), k * 97 % 65535 + 1, 1, 6, 24, 1, 0) + r.randbytes(40) for k in range(64)]
+
+            def batch(world):
+                for k in range(4500):
+                    world.offer_server(("10.13.%d.%d" % ((k >> 8) & 255, k & 255), 13), junk[k & 63], "random")
+                c.inc("inj_big_batches")
+                c.inc("inj_random_bytes", 4500)
+            for t in range(15):
+                if t % 3 == 0 and honest.udp.conn is not None and getattr(honest.udp.conn.status, "value", 0) == 2:
+                    echo_n[0] += 1
+                    p = L.make_payload(honest.sender_id, echo_n[0], r.choice([16, 200, 1000]))
+                    pending_echo[L.payload_id(p)] = w.ticks
+                    honest.udp.send(p, retry=0)
+                    c.inc("echo_requests")
+                w.step(actions=batch)
+                if not w.alive():
+                    viol("server-loop-died", "the server thread died: %s" % (w.thread_errors[:2],))
+                    break
+            w.step(62)
+            for k in [k for k, t0 in pending_echo.items() if w.ticks - t0 > 60]:
+                pending_echo.pop(k)
+                echo_late[0] += 1
         w.step(30)
         c.inc("server_iterations", w.server_iterations - iter0)
         if w.server_iterations - iter0 < cfg["ticks"] * 0.9:
